@@ -137,7 +137,9 @@ def check_stream(ck, prog):
           "check type read as %s" % r_.get("options->check"), key="HDR:flags:decode")
 
 
-def check_block_header(ck, prog):
+def check_block_header(ck, prog, rule="C02-HDR", floor=30):
+    if rule != "C02-HDR":
+        ck.rule(rule, "Block Header: wire layout agreement encoder <-> decoder <-> specification")
     enc = prog.fn("lzma_block_header_encode", "block_header_encoder.c")
     dec = prog.fn("lzma_block_header_decode", "block_header_decoder.c")
     ck.saw_function(enc)
@@ -164,7 +166,7 @@ def check_block_header(ck, prog):
             if back != hs:
                 bad = (hs, stored, back)
                 break
-    ck.ob("C02-HDR", "block:size-byte", ok and bad is None, common.where(enc),
+    ck.ob(rule, "block:size-byte", ok and bad is None, common.where(enc),
           "Block Header Size byte: decode(encode(s)) == s for all 255 legal sizes (%s / %s)" % (
               ex.show(e_expr), ex.show(d_expr)) if ok and bad is None else
           "Block Header Size byte does not round-trip: %s" % (bad,), key="HDR:block:size-byte")
@@ -180,9 +182,9 @@ def check_block_header(ck, prog):
               0x80: "block->uncompressed_size != 18446744073709551615"}
     for bit, cond in want_e.items():
         ok = bit in enc_flags and cond in enc_flags[bit]
-        ck.ob("C02-HDR", "block:flag-encode:%#x" % bit, ok, common.where(enc),
+        ck.ob(rule, "block:flag-encode:%#x" % bit, ok, common.where(enc),
               "flag %#x set under %s" % (bit, enc_flags.get(bit)), key="HDR:block:flag-encode:%#x" % bit)
-    ck.ob("C02-HDR", "block:filter-count-encode", "filter_count - 1" in enc_flags, common.where(enc),
+    ck.ob(rule, "block:filter-count-encode", "filter_count - 1" in enc_flags, common.where(enc),
           "low bits = filter_count - 1", key="HDR:block:filter-count-encode")
     dec_flags = {}
     for blk in dec.blocks.values():
@@ -195,12 +197,12 @@ def check_block_header(ck, prog):
                 fields = sorted({ex.show(a) for e in tb.elems if e for cc in ex.calls(e, into_refs=True)
                                  if cc.get("fn") == "lzma_vli_decode" for a in cc["args"][:1]})
                 dec_flags[bit] = fields
-    ck.ob("C02-HDR", "block:flag-decode", dec_flags.get(0x40) == ["&block->compressed_size"] and
+    ck.ob(rule, "block:flag-decode", dec_flags.get(0x40) == ["&block->compressed_size"] and
           dec_flags.get(0x80) == ["&block->uncompressed_size"], common.where(dec),
           "decoder: flag bits -> fields %s" % {hex(k): v for k, v in dec_flags.items() if k in (0x40, 0x80)},
           key="HDR:block:flag-decode")
     fc = [ex.show(e.get("init")) for b, i, e in dec.iter_elems() if e.get("k") == "decl" and e["n"] == "filter_count"]
-    ck.ob("C02-HDR", "block:filter-count-decode", fc == ["(in[1] & 3) + 1"], common.where(dec),
+    ck.ob(rule, "block:filter-count-decode", fc == ["(in[1] & 3) + 1"], common.where(dec),
           "decoder filter_count = %s" % fc, key="HDR:block:filter-count-decode")
     # field order
     def order(f, names):
@@ -219,10 +221,10 @@ def check_block_header(ck, prog):
     eo = order(enc, {"lzma_vli_encode", "lzma_filter_flags_encode", "memset", "write32ne"})
     want = ["lzma_vli_encode:compressed", "lzma_vli_encode:uncompressed", "lzma_filter_flags_encode",
             "memset", "write32ne"]
-    ck.ob("C02-HDR", "block:order-encode", eo == want, common.where(enc), "encoder field order %s" % eo,
+    ck.ob(rule, "block:order-encode", eo == want, common.where(enc), "encoder field order %s" % eo,
           key="HDR:block:order-encode")
     do = order(dec, {"lzma_vli_decode", "lzma_filter_flags_decode"})
-    ck.ob("C02-HDR", "block:order-decode", do == ["lzma_vli_decode:compressed", "lzma_vli_decode:uncompressed",
+    ck.ob(rule, "block:order-decode", do == ["lzma_vli_decode:compressed", "lzma_vli_decode:uncompressed",
                                                    "lzma_filter_flags_decode"], common.where(dec),
           "decoder field order %s" % do, key="HDR:block:order-decode")
     # CRC32 over [0, header_size - 4) stored at header_size - 4, both sides
@@ -235,10 +237,10 @@ def check_block_header(ck, prog):
     dcond = [ex.show(blk.term["cond"]) for blk in dec.blocks.values() if blk.term and "cond" in blk.term
              and "lzma_crc32" in ex.show(blk.term["cond"])]
     okd = dcond == ["lzma_crc32(in, in_size, 0) != read32le(in + in_size)"]
-    ck.ob("C02-HDR", "block:crc", oke and okd and osz == ["block->header_size - 4"] and isz == osz,
+    ck.ob(rule, "block:crc", oke and okd and osz == ["block->header_size - 4"] and isz == osz,
           common.where(enc), "Block Header CRC32 over [0, header_size-4) stored right after: enc %s, dec %s" % (
               osz, dcond), key="HDR:block:crc")
-    ck.floor("C02-HDR", 30)
+    ck.floor(rule, floor)
 
 
 def _dom_conds(f, bid):
@@ -869,6 +871,8 @@ def run(ck):
     # "no match reaches farther back than the declared dictionary": the match finders stop at delta >= cyclic_size (C01)
     from . import C01, reinit
     C01.check_window(ck, prog)
+    # a .lzma file / LZMA1 stream is complete only if the last range coder bytes are written before the end is reported
+    C01.check_drain(ck, prog, rule="C02-DRAIN")
     # every Block is filtered from a fresh filter state (a decoder written from the specification starts each Block so)
     ck.rule("C02-READFIRST", "filters: what the coding function can read before storing to it is stored by the init function on every path returning LZMA_OK")
     reinit.check_read_first(ck, prog, "C02-READFIRST", files={"delta_common.c", "simple_coder.c"})
